@@ -43,6 +43,7 @@ PROPS["C12"] = dict(
     pkg="./props/codec", level="exploration", design_ref="DESIGN.md §3 C12",
     technique="metamorphic testing (any read partition == one generous read) plus a reference framer, on rapid-generated streams and partitions aimed inside tags, lengths and checksums",
     stages=[dict(name="rapid", kind="rapid", run="^TestC12_Rapid$", checks=(3000, 60000), shards=(12, 16), timeout=(400, 2400)),
+            dict(name="acceptor-socket", kind="rapid", run="^TestC12_AcceptorSocket$", pkg="./props/session", checks=(0, 300), shards=(0, 4), timeout=(0, 1500), thorough_only=True),
             dict(name="fuzz-stream", kind="fuzz", run="^FuzzC09_Stream$", thorough_only=True, fuzztime=(0, 60), timeout=(0, 400))],
     require=["family:wellformed", "family:soup", "split-inside-tag-length-or-checksum", "message-larger-than-buffer", "two-or-more-messages", "long-junk"],
     assumptions=["frames are observed through parser.ReadMessage (hook H1 wraps the unexported parser); the sequence ends at the first error, as in connection.go's readLoop",
@@ -210,7 +211,7 @@ PROPS["C09"] = dict(
             dict(name="fuzz-message", kind="fuzz", run="^FuzzC09_Message$", thorough_only=True, fuzztime=(0, 90), timeout=(0, 400)),
             dict(name="fuzz-stream", kind="fuzz", run="^FuzzC09_Stream$", thorough_only=True, fuzztime=(0, 60), timeout=(0, 400)),
             dict(name="fuzz-settings", kind="fuzz", run="^FuzzC09_Settings$", thorough_only=True, fuzztime=(0, 45), timeout=(0, 400))],
-    require=["target:message", "target:stream", "target:settings", "target:dictionary", "target:session", "message:parsed", "stream:framed", "settings:accepted",
+    require=["target:message", "target:stream", "target:settings", "settings:acceptor-built", "settings:initiator-built", "target:dictionary", "target:session", "message:parsed", "stream:framed", "settings:accepted",
              "dictionary:in-child-process", "session:garbage-then-alive"],
     assumptions=["frames given to the session target are what the real stream framer extracts from the mutated bytes (wire-reachable frames)",
                  "a stack overflow while loading a dictionary is observed as the death of a child process"],
